@@ -98,6 +98,13 @@ func genClient(rng *rand.Rand, i int) scenario {
 			p.WFR = true
 		case "backoff":
 			max = 30 * time.Second // inside the first retry backoff (40-60 s)
+			if (i/len(blockingPoints))%2 == 0 {
+				// Half of the backoff cases are unary only: a streaming RPC whose
+				// backoff ignored the context would park its watcher goroutine on
+				// the stream mutex, which keeps a bubble from ever quiescing — the
+				// unary cases report such a break before a streaming one can wedge.
+				p.Unary = true
+			}
 		}
 		switch rng.Intn(5) {
 		case 0, 1:
@@ -1178,11 +1185,10 @@ func TestVerifC22(t *testing.T) {
 	}
 	r.Finish(vlib.Spec{
 		Level: "exploration",
-		Rule: "client: 1-5 unary/streaming RPCs parked at one of 13 blocking points (resolver wait; pick while connecting / transient failure with wait-for-ready / picker without SubConn / SubConn not READY; stream quota 0 and 1-taken; write quota with a zero window; header wait via RecvMsg and via Header(); receive after headers and mid-message; retry backoff) with deadlines and cancel instants from 1 ns to hours (also already-expired), judged at every event instant + quiescence in virtual time: DEADLINE_EXCEEDED exactly at the deadline, CANCELLED exactly at the cancel, nothing still running past either, nothing ending without cause, RST_STREAM on the wire for streams that had been opened. server: real client and real server, 1-5 RPCs with timeouts around every grpc-timeout unit boundary: handler deadline in [client deadline, + one encoding unit), handler context done exactly at the client's cancel / deadline / its own deadline and not before. server-wire: scripted client sending literal grpc-timeout values, then RST_STREAM / connection close / nothing: handler deadline exact, context done at exactly that instant. replay-blocked (directed, real time, verdict from goroutine-stack facts only): a retry attempt parked on the write quota while replaying buffered messages must end when the context is cancelled / expires. non-trivial = an RPC ending or a handler context was judged; distinct = (blocking point, kind, ending, magnitude) and (unit, rounded) / (cause, context error) classes",
+		Rule:  "client: 1-5 unary/streaming RPCs parked at one of 13 blocking points (resolver wait; pick while connecting / transient failure with wait-for-ready / picker without SubConn / SubConn not READY; stream quota 0 and 1-taken; write quota with a zero window; header wait via RecvMsg and via Header(); receive after headers and mid-message; retry backoff) with deadlines and cancel instants from 1 ns to hours (also already-expired), judged at every event instant + quiescence in virtual time: DEADLINE_EXCEEDED exactly at the deadline, CANCELLED exactly at the cancel, nothing still running past either, nothing ending without cause, RST_STREAM on the wire for streams that had been opened. server: real client and real server, 1-5 RPCs with timeouts around every grpc-timeout unit boundary: handler deadline in [client deadline, + one encoding unit), handler context done exactly at the client's cancel / deadline / its own deadline and not before. server-wire: scripted client sending literal grpc-timeout values, then RST_STREAM / connection close / nothing: handler deadline exact, context done at exactly that instant. replay-blocked (directed, real time, verdict from goroutine-stack facts only): a retry attempt parked on the write quota while replaying buffered messages must end when the context is cancelled / expires. non-trivial = an RPC ending or a handler context was judged; distinct = (blocking point, kind, ending, magnitude) and (unit, rounded) / (cause, context error) classes",
 		Assumptions: []string{"in-memory connections have zero virtual latency, so the handler is entered at the instant the client sends (counted: handler_entered_at_send_instant)",
 			"the upper bound on the handler deadline uses the finest unit in which the remaining time fits 8 digits (PROTOCOL-HTTP2); it is judged only for RPCs that did not wait for stream quota",
 			"RPCs parked while the channel is connecting or in transient failure are wait-for-ready (a fail-fast RPC legitimately fails UNAVAILABLE there); fail-fast RPCs are parked by scripted pickers"},
 		Floor: floor,
 	})
 }
-
